@@ -6132,13 +6132,36 @@ class Expr(BinaryOpBase):  # R722
 
     @staticmethod
     def match(string):
-        return BinaryOpBase.match(
-            Expr,
-            pattern.defined_binary_op.named(),
-            Level_5_Expr,
-            string,
-            exclude_op_pattern=pattern.non_defined_binary_op,
-        )
+        """Match the lowest-precedence rule: a defined binary operator splits
+        the expression at its right-most occurrence for which both operands
+        are valid. Dotted tokens that are intrinsic operators or logical
+        literals, and defined operators used as unary operators, are not
+        candidates.
+
+        :param str string: Fortran code to check for a match.
+
+        :returns: None if there is no match, otherwise the lhs, the \
+            operator and the rhs.
+        :rtype: Optional[Tuple[Base, str, Base]]
+
+        """
+        line, repmap = string_replace_map(string)
+        op_pattern = pattern.defined_binary_op.get_compiled()
+        for found in reversed(list(op_pattern.finditer(line))):
+            oper = found.group().upper()
+            if pattern.non_defined_binary_op.match(oper):
+                continue
+            lhs = line[: found.start()].rstrip()
+            rhs = line[found.end() :].lstrip()
+            if not lhs or not rhs:
+                continue
+            try:
+                rhs_obj = Level_5_Expr(repmap(rhs))
+                lhs_obj = Expr(repmap(lhs))
+            except NoMatchError:
+                continue
+            return lhs_obj, oper.replace(" ", ""), rhs_obj
+        return None
 
 
 class Defined_Binary_Op(Base):  # pylint: disable=invalid-name
